@@ -80,6 +80,9 @@ class C14(Prop):
         'kinds re-attach (o* r* o* r*), and when an emptied argument list '
         'does not let the name run into a following letter',
     )
+    probes = ('args', 'reach')
+    probed_every = 8
+    reach_required = ['data.TexNode.name', 'data.TexNode.string', 'data.TexNode.args', 'data.TexNamedEnv.end', 'data.TexExpr.string', 'data.TexExpr.contents', 'data.TexArgs.__getitem__']
     min_nontrivial = 1000
     budget_s = {'quick': 240, 'thorough': 3000}
 
